@@ -74,7 +74,8 @@ let canon (tr : dop list) (room : int) : string list * dop list * bool =
 
 let ops_string l = if l = [] then "-" else String.concat " ; " l
 
-let snap_state d = if valid_snap d then (if is_shrunk d then "shrunk" else "full") else "bad"
+(* a metadata-only snapshot file is byte-identical to a shrunk one *)
+let snap_state d = if valid_snap d then (if is_partial d then "shrunk" else "full") else "bad"
 let flag_state d = match flag_index d with Some i -> sn i | None -> "bad"
 
 let tree_string (s : state) : string =
@@ -87,20 +88,23 @@ let tree_string (s : state) : string =
       fstr f ^ "=" ^ (match f with
         | FSnap _ | FShrunk _ -> snap_state dt
         | FFlag | FMeta -> flag_state dt
-        | FOther _ -> "?")) fl) ^ "]") t)
+        | FOther _ -> snap_state dt)) fl) ^ "]") t)
 
 let oc_string = function
   | Done -> "ok" | Failed -> "err" | OutOfDate -> "ood" | Skipped -> "skip" | Panicked -> "panic"
 
-type pcmd = Base of cmd | Recover of n
+type pcmd = Base of cmd | Recover of n | Entries of n | DSave
 
 let parse_cmd (s : string) : pcmd * string =
   match split_ws s with
   | ["RECOVER"; i] -> (Recover (n_of_string i), "RECOVER " ^ i)
+  | ["ENTRIES"; k] -> (Entries (n_of_string k), "ENTRIES " ^ k)
+  | ["DSAVE"] -> (DSave, "DSAVE")
   | l -> let (c, str) = (match l with
   | ["SAVE"; i; n] -> (CSave (n_of_string i, n_of_string n), "SAVE " ^ i ^ " " ^ n)
   | ["COMMIT"; i] -> (CCommit (n_of_string i), "COMMIT " ^ i)
   | ["RECV"; i; n] -> (CRecv (n_of_string i, n_of_string n), "RECV " ^ i ^ " " ^ n)
+  | ["RECVX"; i; n; m] -> (CRecvX (n_of_string i, n_of_string n, n_of_string m), "RECVX " ^ i ^ " " ^ n ^ " " ^ m)
   | ["APPLY"; i] -> (CApply (n_of_string i), "APPLY " ^ i)
   | ["SHRINK"; i] -> (CShrink (n_of_string i), "SHRINK " ^ i)
   | ["COMPACT"; i] -> (CCompact (n_of_string i), "COMPACT " ^ i)
@@ -128,6 +132,10 @@ let () =
       let cmds = List.filter (fun x -> String.trim x <> "") (split_on " ; " body) in
       let s = ref { ds_st = init; ds_smv = N0; ds_smd = N0 } in
       let lr = ref N0 in
+      (* the applied index of the rsm: 1 after the bootstrap membership entry *)
+      let ap = ref (if disk then n_of_int 1 else N0) in
+      let dead = ref false in
+      let nlt a b = int_of_n a < int_of_n b in
       let total = ref 0 in
       let stop = ref false in
       let lift tr = List.map (fun o -> DBase o) tr in
@@ -135,8 +143,17 @@ let () =
       let exec_cmd (c : pcmd) : dstate * dop list * outcome =
         match c with
         | Recover i ->
+          if not disk || not (nlt !ap i) then (!s, [], Skipped) else
           let ((s', tr), oc) = cmd_install !s !lr i in
-          if oc <> Skipped then lr := i;
+          if oc <> Skipped then begin lr := i; ap := i end;
+          (s', tr, oc)
+        | Entries k ->
+          if disk && nlt !ap k then begin ap := k; (cmd_entries !s k, [], Done) end
+          else (!s, [], Skipped)
+        | DSave ->
+          if not disk then (!s, [], Skipped) else
+          let ((s', tr), oc) = cmd_save_ondisk !s !lr !ap in
+          if oc = Done then lr := !ap;
           (s', tr, oc)
         | Base c ->
           let ((_, tr), oc) = do_cmd ord !s.ds_st c in
@@ -144,6 +161,8 @@ let () =
           if disk && c = CCrash && oc = Done then begin
             lr := s1.ds_st.st_rec;
             let ((s2, tr2), oc2) = init_recover s1 in
+            if oc2 <> Done then dead := true;
+            ap := (if s1.ds_st.st_rec = N0 then n_of_int 1 else s1.ds_st.st_rec);
             (s2, lift tr @ tr2, oc2)
           end else (s1, lift tr, oc) in
       List.iteri (fun n cs ->
@@ -160,7 +179,7 @@ let () =
             s := s';
             total := !total + List.length cs;
             Printf.printf "%s cmd %d %s -> %s : %s\n" id n cstr (oc_string oc) (ops_string cs);
-            if cut >= 0 && !total >= cut then stop := true
+            if (cut >= 0 && !total >= cut) || !dead then stop := true
           end
         end) cmds;
       if cut < 0 then
@@ -180,5 +199,7 @@ let () =
           Printf.printf "%s restart -> %s : %s\n" id (oc_string oc2) (ops_string cs2);
           r.ds_st
         end else f in
-      Printf.printf "%s final %s rec=%s clean=%b\n" id (tree_string f) (sn f.st_rec) (ok && cleanb f)
+      let ext_ok = List.for_all (fun o ->
+        match o.d_vn with Some (DFinal _) -> ext_fullb o.d_files | _ -> true) f.st_fs in
+      Printf.printf "%s final %s rec=%s clean=%b\n" id (tree_string f) (sn f.st_rec) (ok && cleanb f && ext_ok)
     end)
